@@ -4,10 +4,11 @@
 -/
 import GoDebian.Drv.Version
 import GoDebian.Drv.Dependency
+import GoDebian.Drv.Deb822
 
 open GoDebian GoDebian.Drv
 
-def handlers : List Handler := [versionHandler, dependencyHandler]
+def handlers : List Handler := [versionHandler, dependencyHandler, deb822Handler]
 
 def dispatch (line : String) : String :=
   match (line.splitOn " ").filter (· ≠ "") with
